@@ -47,7 +47,7 @@ def exc_origin(err) -> str:
 class Outcome:
     """What one execution of the reader did."""
 
-    __slots__ = ("items", "events", "exc", "exc_where", "hang", "transport", "handler_bad", "objs")
+    __slots__ = ("items", "events", "exc", "exc_where", "hang", "transport", "handler_bad", "objs", "decoy_calls")
 
     def __init__(self):
         self.items = []  # [(raw bytes, canon_parsed)]
@@ -58,6 +58,7 @@ class Outcome:
         self.transport = None
         self.handler_bad = []  # handler invoked with something that is not an exception
         self.objs = []  # parsed objects (kept only on request)
+        self.decoy_calls = 0  # calls received by the handler of ANOTHER live reader
 
     def raws(self):
         return [r for r, _ in self.items]
@@ -76,6 +77,27 @@ def reader_kwargs(cfg: dict) -> dict:
     if "bufsize" in cfg:
         kw["bufsize"] = cfg["bufsize"]
     return kw
+
+
+class _FalsyHandler:
+    """A present-but-falsy error handler object (an empty collection with __call__)."""
+
+    def __init__(self, fn):
+        self._fn = fn
+
+    def __len__(self):
+        return 0
+
+    def __call__(self, err):
+        self._fn(err)
+
+
+class _MethodHandler:
+    def __init__(self, fn):
+        self._fn = fn
+
+    def handle(self, err):
+        self._fn(err)
 
 
 def run_reader(wire: bytes, cfg: dict, tr: dict, keep_objs=False, use_read=False) -> Outcome:
@@ -98,10 +120,31 @@ def run_reader(wire: bytes, cfg: dict, tr: dict, keep_objs=False, use_read=False
             else:
                 out.handler_bad.append(repr(err))
 
-        kw["errorhandler"] = handler
+        kind = cfg.get("handler_kind", "function")
+        if kind == "falsy_callable":
+            kw["errorhandler"] = _FalsyHandler(handler)
+        elif kind == "method":
+            kw["errorhandler"] = _MethodHandler(handler).handle
+        else:
+            kw["errorhandler"] = handler
+    use_read = use_read or cfg.get("drive") == "read"
     max_items = len(wire) + MAX_ITEMS_SLACK
     try:
         ubr = UBXReader(transport, **kw)
+        if cfg.get("decoy"):
+            # a second reader alive in the same process with its own policy and handler: nothing
+            # this reader does may be routed through the other one's configuration
+            def decoy_handler(err):  # pylint: disable=unused-argument
+                out.decoy_calls += 1
+
+            decoy = UBXReader(
+                make_transport(b"", {"kind": "file"}),
+                quitonerror=cfg.get("decoy_policy", 1),
+                protfilter=cfg.get("decoy_protfilter", 7),
+                msgmode=cfg.get("decoy_msgmode", 0),
+                errorhandler=decoy_handler,
+            )
+            out.objs.append(decoy)  # keep it alive for the whole run
         n = 0
         if use_read:
             while True:
